@@ -670,7 +670,9 @@ func CompareDistance(x, y Point, r s1.ChordAngle) int {
 func triageCompareCosDistance(x, y Point, r2 float64) int {
 	cosXY, cosXYError := cosDistance(x, y)
 	cosR := 1.0 - 0.5*r2
-	cosRError := 2.0 * dblError * cosR
+	// cosR is negative for limits beyond 90 degrees; the error bound must not
+	// shrink in that case (the C++ original has the same omission).
+	cosRError := 2.0 * dblError * math.Abs(cosR)
 	diff := cosXY - cosR
 	err := cosXYError + cosRError
 	if diff > err {
